@@ -504,6 +504,20 @@ func main() {
 			os.Exit(2)
 		}
 		os.Exit(replayCmd(cfg, os.Args[3]))
+	case "run": // <Cxx> run <index>: one search-mode run of $VERIF_SEED with its trace (triage aid)
+		if len(os.Args) < 4 {
+			fmt.Println("usage: check Cxx run <index>")
+			os.Exit(2)
+		}
+		idx, _ := strconv.Atoi(os.Args[3])
+		sc := prepare()
+		rs := runJob(sc, cfg, job{prop: cfg.ID, seed: seed, run: idx, count: 1, trace: true, opt: os.Getenv("VERIF_OPT")})
+		for _, l := range resolveSites(sc, rs[0].Trace) {
+			fmt.Println(l)
+		}
+		fmt.Printf("verdict=%s class=%s\n%s\nparams=%v faults=%v\n", rs[0].Verdict, rs[0].Class, rs[0].Detail, rs[0].Params, rs[0].Faults)
+		doCleanup()
+		os.Exit(0)
 	case "determinism":
 		n := 30
 		if len(os.Args) > 3 {
